@@ -206,3 +206,12 @@ func renderFull(items []stackitem.Item) []any {
 	}
 	return res
 }
+
+// LEInt decodes a raw storage value holding a NeoVM integer (little-endian two's complement;
+// the empty value is zero).
+func LEInt(v []byte) *big.Int {
+	if len(v) == 0 {
+		return big.NewInt(0)
+	}
+	return Int(stackitem.NewByteArray(v))
+}
